@@ -46,6 +46,9 @@ type adapter struct {
 	// private copies that the call may overwrite; only the returned value is asserted.
 	aliasOps  []aliasOp
 	observers []observer
+	// intoOps write into an existing object z (receiver / destination) from other objects: z.Neg(x), z.Set(x),
+	// z.CMov(1,x), z.UnmarshalBinary(bytes of x), *z = *x, z.SetIdentity() … The object z keeps its identity.
+	intoOps []intoOp
 	// predicates
 	isEqual    func(p, q pt) bool
 	isIdentity func(p pt) bool
@@ -77,6 +80,24 @@ type aliasOp struct {
 
 // noHist: forms that write into Q (their second operand) cannot be used as "pool[i] = op(pool[i], pool[j])".
 var noHist = map[string]bool{"z.Add(x,z)": true, "Q.Add(P,Q)": true, "g.Add(P,g)": true}
+
+// intoOp overwrites the object z in place from x, y and k; exp gives the new model exponent of z.
+type intoOp struct {
+	name string
+	run  func(z, x, y pt, k *big.Int)
+	exp  func(ez, ex, ey, k *big.Int) *big.Int
+}
+
+func intoX(ez, ex, ey, k *big.Int) *big.Int    { return ex }
+func intoY(ez, ex, ey, k *big.Int) *big.Int    { return ey }
+func intoKeep(ez, ex, ey, k *big.Int) *big.Int { return ez }
+func intoZero(ez, ex, ey, k *big.Int) *big.Int { return big.NewInt(0) }
+func intoOne(ez, ex, ey, k *big.Int) *big.Int  { return big.NewInt(1) }
+func intoK(ez, ex, ey, k *big.Int) *big.Int    { return k }
+func intoNeg(ez, ex, ey, k *big.Int) *big.Int  { return new(big.Int).Neg(ex) }
+func intoSum(ez, ex, ey, k *big.Int) *big.Int  { return new(big.Int).Add(ex, ey) }
+func intoDbl(ez, ex, ey, k *big.Int) *big.Int  { return new(big.Int).Lsh(ex, 1) }
+func intoMul(ez, ex, ey, k *big.Int) *big.Int  { return new(big.Int).Mul(ex, k) }
 
 // observer is a read-only method called on the object itself (not on a copy): encoders, normalisers,
 // predicates. run renders what it returned, want gives the expected rendering from the model exponents.
@@ -785,6 +806,85 @@ func sweep(t *testing.T, ad *adapter, span int) {
 			vlib.NonTrivialH(sub, "boundary-scalar", vlib.Hash64([]byte("mulgen"), k.Bytes()))
 		}
 	}
+	// structured scalars: runs of one-bits / zero-bits of lengths 63…66, 127…130, … at every bit offset, and
+	// scalars whose digit recodings are all-negative / all-maximal / alternating
+	{
+		bits := 8 * ad.sbytes
+		if bits > ad.r.BitLen()+8 {
+			bits = ad.r.BitLen() + 1 // wider values are reduced first (bls12381 Scalar); the boundary sweep covers them
+		}
+		level, maxLen := 1, 130
+		if vlib.Thorough() {
+			level, maxLen = 2, bits
+		}
+		g1 := big.NewInt(1)
+		runsFixed := curves.RunScalars(bits, maxLen, level, vlib.Seed)
+		if !vlib.Thorough() && len(runsFixed) > 4000 {
+			// quick tier: thin out the wide curves (every n-th scalar, phase rotating with the seed)
+			n := (len(runsFixed) + 3999) / 4000
+			var thin []*big.Int
+			for i := vlib.Seed % n; i < len(runsFixed); i += n {
+				thin = append(thin, runsFixed[i])
+			}
+			runsFixed = thin
+		}
+		runsVar := curves.RunScalars(bits, bits, level-1, vlib.Seed)
+		pats := curves.DigitPatternScalars(bits)
+		ssub := sub + "/structured-scalars"
+		fail := func(op string, k *big.Int, got, want string) bool {
+			key := fmt.Sprintf("C13/%s.%s/structured-scalar", ad.name, op)
+			return !vlib.ReportDirect(t, key, fmt.Sprintf("k=%s: got %s want %s", k.Text(16), got, want), map[string]interface{}{"k": k.Text(16)})
+		}
+		if ad.mulgen != nil {
+			for i, k := range append(append([]*big.Int{}, runsFixed...), pats...) {
+				if i%vlib.NShards != vlib.Shard {
+					continue
+				}
+				vlib.Eval(ssub)
+				if got, want := ad.enc(ad.mulgen(k)), ad.want(k); got != want {
+					if fail("ScalarBaseMult", k, got, want) {
+						return
+					}
+				}
+			}
+			vlib.ClassN(ssub, "fixed-base", int64(len(runsFixed)+len(pats)))
+		}
+		G := ad.mk(g1)
+		for i, k := range append(append([]*big.Int{}, runsVar...), pats...) {
+			if i%vlib.NShards != vlib.Shard {
+				continue
+			}
+			if ad.mul != nil {
+				vlib.Eval(ssub)
+				if got, want := ad.enc(ad.mul(k, G)), ad.want(new(big.Int).Mul(k, factor)); got != want {
+					if fail("ScalarMult", k, got, want) {
+						return
+					}
+				}
+			}
+			if ad.combined != nil {
+				vlib.Eval(ssub)
+				zero := big.NewInt(0)
+				for c, mn := range [][2]*big.Int{{k, zero}, {zero, k}, {k, k}} {
+					e := new(big.Int).Add(mn[0], mn[1])
+					if got, want := ad.enc(ad.combined(mn[0], mn[1], G)), ad.want(e); got != want {
+						if ad.combinedKey != nil && ad.combinedKey(mn[0], mn[1], g1, got) != "mismatch" {
+							continue
+						}
+						if fail(fmt.Sprintf("CombinedMult#%d", c), k, got, want) {
+							return
+						}
+					}
+				}
+			}
+		}
+		vlib.ClassN(ssub, "variable-base/combined", int64(len(runsVar)+len(pats)))
+		vlib.NonTrivialH(ssub, "structured-batch", vlib.Hash64([]byte(ad.name), []byte{byte(vlib.Shard), byte(vlib.Seed)}))
+		if vlib.Shard == 0 {
+			vlib.Exhaustive(fmt.Sprintf("C13 %s: runs of one/zero bits (lengths 63…66, 127…130, … ≤ %d) at every bit offset of a %d-bit scalar, low parts 1, 3, 0", ad.name, maxLen, bits),
+				int64(len(runsFixed)), fmt.Sprintf("fixed base: level %d of ref/curves.RunScalars; variable base / CombinedMult: %d scalars (one combination per offset); %d digit-pattern scalars", level, len(runsVar), len(pats)))
+		}
+	}
 	if vlib.Shard == 0 {
 		vlib.Exhaustive("C13 "+ad.name+": scalars within ±"+fmt.Sprint(span)+" of 0, r, 2r, 3r and the top of the admitted width, on G and one other point", int64(len(ks)), "all shards together; variable- and fixed-base multiplication")
 	}
@@ -1003,7 +1103,7 @@ func history(t *rapid.T, ad *adapter) {
 		fresh(t, i)
 	}
 	last := "init"
-	usedAfterObserver, nObs, nOps := 0, 0, 0
+	usedAfterObserver, nObs, nOps, nInto := 0, 0, 0, 0
 	failed := false
 	check := func(t *rapid.T) {
 		if failed {
@@ -1056,6 +1156,35 @@ func history(t *rapid.T, ad *adapter) {
 			vlib.Class(sub, last)
 		}
 	}
+	for _, op := range ad.intoOps {
+		op := op
+		actions["into:"+op.name] = func(t *rapid.T) {
+			if failed {
+				return
+			}
+			i := rapid.IntRange(0, N-1).Draw(t, "z")
+			j := rapid.IntRange(0, N-1).Draw(t, "x")
+			l := rapid.IntRange(0, N-1).Draw(t, "y")
+			var k *big.Int
+			if rapid.Bool().Draw(t, "ksmall") {
+				k = big.NewInt(int64(rapid.IntRange(0, 20).Draw(t, "kval")))
+			} else {
+				k, _ = drawScalar(t, ad, "k")
+			}
+			if observed[j] || observed[l] {
+				usedAfterObserver++
+			}
+			e := op.exp(exps[i], exps[j], exps[l], k)
+			op.run(pool[i], pool[j], pool[l], k)
+			exps[i] = new(big.Int).Mod(e, ad.r)
+			observed[i] = false
+			nOps++
+			nInto++
+			last = "into:" + op.name
+			trace = append(trace, fmt.Sprintf("%s [z=o%d, x=o%d, y=o%d, k=%s]", op.name, i, j, l, k.Text(16)))
+			vlib.Class(sub, last)
+		}
+	}
 	for _, ob := range ad.observers {
 		ob := ob
 		actions["observe:"+ob.name] = func(t *rapid.T) {
@@ -1079,6 +1208,9 @@ func history(t *rapid.T, ad *adapter) {
 	t.Repeat(actions)
 	vlib.Eval(sub)
 	vlib.EvalN(sub+"/steps", int64(nOps+nObs))
+	if nInto > 0 && !failed {
+		vlib.Class(sub, "history-with-overwrites")
+	}
 	if usedAfterObserver > 0 && !failed {
 		vlib.Class(sub, "operand-after-observer")
 		vlib.NonTrivial(sub, "operand-after-observer", []byte(strings.Join(trace, ";")))
